@@ -122,8 +122,24 @@ Definition spec_name (t : target) (k : str) : str :=
 Definition entries (k : str) (ps : list (str * pvalue)) : list pvalue :=
   map snd (filter (fun e => str_eqb k (fst e)) ps).
 
+(* value checks of a primitive's own parameter class are not this property's concern: a Bipolar width / length whose
+   value does not exceed the comparison tolerance 10^(min(prefix, 0) - EPSILON) of prefixed numbers ("invalid width")
+   is outside the quantifier *)
+Definition domain_free (t : target) (k : str) (x : expect) : expect :=
+  match t with
+  | TPrim name =>
+      if String.eqb name "Bipolar" && (str_eqb k (of_string "w") || str_eqb k (of_string "l")) then
+        match x with
+        | XValue d => if dltb (of_int 1 (-20)) d then x else XFree
+        | XPrefixed d q => if dltb (of_int 1 (Z.min q 0 - 20)) (dscaleb d q) then x else XFree
+        | _ => x
+        end
+      else x
+  | _ => x
+  end.
+
 Definition spec_inst (c : call) (r : ires) : bool :=
-  let xs := map (fun p : str * Z * value => (fst (fst p), expected (snd (fst p)) (snd p))) (c_params c) in
+  let xs := map (fun p : str * Z * value => (fst (fst p), domain_free (c_tgt c) (fst (fst p)) (expected (snd (fst p)) (snd p)))) (c_params c) in
   if existsb (fun kx => is_free (snd kx)) xs then true
   else
     let must_refuse := existsb (fun kx => unrepresentable (snd kx)) xs in
